@@ -135,6 +135,19 @@ def run(ctx) -> None:
     ctx.check("R3", init == want, "V2_FIELD_INITIAL_VALUES == {major,minor,patch,num,inc0: '0', inc1: '1'} (BUILD/TAG carried over)",
               "version.V2_FIELD_INITIAL_VALUES differs from the documented reset rule", f"{init}", loc="src/bumpver/version.py",
               witness={k: (init.get(k), want.get(k)) for k in set(init) | set(want) if init.get(k) != want.get(k)})
+    zero = prog.const("version", "PART_ZERO_VALUES")
+    from checks.c02 import part_tables as _pt
+    _pats, _fields, _fmts = _pt(ctx)
+    for part, z in sorted(zero.items()):
+        fld = _fields.get(part)
+        if fld in ("tag",):
+            good = z == "final"
+        elif fld in ("pytag",):
+            good = z == ""
+        else:
+            good = z == "0"
+        ctx.check("R3", good, f"PART_ZERO_VALUES[{part!r}] = {z!r} is the part's zero (0 / final / empty)", f"version.PART_ZERO_VALUES[{part!r}] is not a zero value: an optional group is omitted although its part is not zero",
+                  f"{part} -> {z!r} (field {fld})", loc="src/bumpver/version.py", witness={"pattern": f"YYYY.MM[.{part}]", "value": z})
     it = prog.function("v2version._iter_reset_field_items")
     ctx.visit(it.fq)
     icfg = cfgs.get(it.fq)
@@ -218,6 +231,19 @@ def run(ctx) -> None:
         rets = [n for n in walk_no_nested(gt.node) if isinstance(n, ast.Return)]
         ok = len(rets) == 1 and unparse(rets[0].value) == "lvals > rvals"
         ctx.check("R4", ok, f"{eng}._is_cal_gt compares the non-None fields lexicographically with >", f"{eng}._is_cal_gt: comparison changed", unparse(rets[0]) if rets else "", loc=gt.loc())
+        # a field takes part in the comparison iff it is not None on both sides (0 is a value: week 0)
+        gcfg = cfgs.get(gt.fq)
+        gpc = PathCond(gcfg)
+        apps = [n for n in gcfg.nodes if n.kind == "stmt" and isinstance(n.ast, ast.Expr) and isinstance(n.ast.value, ast.Call)
+                and isinstance(n.ast.value.func, ast.Attribute) and n.ast.value.func.attr == "append" and n.id in gcfg.reachable()]
+        ctx.require(len(apps) == 2, f"{eng}._is_cal_gt: expected two append statements")
+        for n in apps:
+            var = unparse(n.ast.value.args[0])
+            r = gpc.reach(n.id).drop_unused()
+            nones = [a for a in r.atoms if a.endswith(" is None")]
+            ok = len(nones) == 2 and set(r.atoms) == set(nones) and r.equiv(~BF.var(nones[0]) & ~BF.var(nones[1]))
+            ctx.check("R4", ok, f"{eng}._is_cal_gt: `{var}` is compared iff neither side is None", f"{eng}._is_cal_gt: fields are filtered by truthiness (a calendar value of 0, e.g. week 0, is dropped from the future guard)",
+                      f"`{var}` collected when {r.to_dnf()}", loc=gt.loc(n.ast), witness={"old": "2021.05.3", "pattern": "YYYY.0W.INC0", "date": "2021-01-02"})
 
     # ---------------------------------------------------------------- R5
     from checks.c02 import field_domains, part_tables
